@@ -50,6 +50,8 @@ type stats struct {
 
 var st stats
 
+var perLoopVars bool
+
 var mapsFlag = flag.Bool("maps", false, "announce map accesses (zzsim.M) before statements that cannot synchronise")
 
 var allSites []string
@@ -79,6 +81,19 @@ func main() {
 	abs, err := filepath.Abs(*root)
 	if err != nil {
 		fatal(err)
+	}
+	// modules declaring a Go version before 1.22 have one instance of a range
+	// loop's variables for the whole loop
+	if gm, err := os.ReadFile(filepath.Join(abs, "go.mod")); err == nil {
+		for _, l := range strings.Split(string(gm), "\n") {
+			f := strings.Fields(l)
+			if len(f) == 2 && f[0] == "go" {
+				var maj, min int
+				if n, _ := fmt.Sscanf(f[1], "%d.%d", &maj, &min); n == 2 && (maj < 1 || (maj == 1 && min < 22)) {
+					perLoopVars = true
+				}
+			}
+		}
 	}
 	var patterns []string
 	for _, p := range strings.Split(*pkgs, ",") {
@@ -840,6 +855,28 @@ func (rw *rewriter) rangeStmt(s *ast.RangeStmt, labelled bool) ast.Stmt {
 			keyTok = s.Tok
 		}
 	}
+	// (module older than Go 1.22) the variables the loop defines exist once
+	// for the whole loop: they are declared in front of it and assigned at
+	// every turn, so that a pointer or a closure keeps seeing the last turn
+	hoisted := false
+	if perLoopVars && s.Tok == token.DEFINE && !labelled {
+		zeroKey := &ast.StarExpr{X: &ast.CallExpr{Fun: ast.NewIdent("new"), Args: []ast.Expr{ast.NewIdent(keyName)}}}
+		if keyTok == token.DEFINE && keyExpr == s.Key {
+			pre = append(pre, &ast.DeclStmt{Decl: &ast.GenDecl{Tok: token.VAR, Specs: []ast.Spec{
+				&ast.ValueSpec{Names: []*ast.Ident{s.Key.(*ast.Ident)}, Type: ast.NewIdent(keyName)}}}},
+				&ast.AssignStmt{Lhs: []ast.Expr{ast.NewIdent("_")}, Tok: token.ASSIGN, Rhs: []ast.Expr{s.Key}})
+			keyTok = token.ASSIGN
+		}
+		if s.Value != nil {
+			if id, isID := s.Value.(*ast.Ident); isID && id.Name != "_" {
+				// a lookup gives the variable its type without naming it
+				pre = append(pre, &ast.AssignStmt{Lhs: []ast.Expr{id}, Tok: token.DEFINE,
+					Rhs: []ast.Expr{&ast.IndexExpr{X: mexpr, Index: zeroKey}}},
+					&ast.AssignStmt{Lhs: []ast.Expr{ast.NewIdent("_")}, Tok: token.ASSIGN, Rhs: []ast.Expr{id}})
+				hoisted = true
+			}
+		}
+	}
 	assertK := &ast.TypeAssertExpr{X: ast.NewIdent(kk), Type: ast.NewIdent(keyName)}
 	body := []ast.Stmt{
 		&ast.AssignStmt{Lhs: []ast.Expr{keyExpr}, Tok: keyTok, Rhs: []ast.Expr{assertK}},
@@ -850,6 +887,9 @@ func (rw *rewriter) rangeStmt(s *ast.RangeStmt, labelled bool) ast.Stmt {
 		if id, isID := s.Value.(*ast.Ident); !isID || id.Name != "_" {
 			valExpr = s.Value
 			valTok = s.Tok
+			if hoisted {
+				valTok = token.ASSIGN
+			}
 		}
 	}
 	lookupTok := token.DEFINE // okv is always new
